@@ -25,6 +25,12 @@ type C05Step struct {
 	// the running transaction). Not combined with a failing COMMIT (atomicity across tables is
 	// not part of the property).
 	Second int `json:"second,omitempty"`
+	// Maint: "refresh" or "vacuum": after statement number MaintAt (0 = right after BEGIN) the
+	// connection calls s3db_refresh / s3db_vacuum (cutoff older than every write: nothing to
+	// purge) on the table in the middle of the transaction. The call may be refused or may
+	// succeed; either way everything the property promises about the transaction still holds.
+	Maint   string `json:"maint,omitempty"`
+	MaintAt int    `json:"maint_at,omitempty"`
 }
 
 type C05Case struct {
@@ -70,6 +76,10 @@ func genC05Case(t *rapid.T) C05Case {
 			used := map[string]bool{}
 			if k > 0 && st.End != "failcommit" && rapid.IntRange(0, 2).Draw(t, "second") == 0 {
 				st.Second = rapid.IntRange(1, k).Draw(t, "secondat")
+			}
+			if rapid.IntRange(0, 3).Draw(t, "maint") == 0 {
+				st.Maint = rapid.SampledFrom([]string{"refresh", "vacuum"}).Draw(t, "maintkind")
+				st.MaintAt = rapid.IntRange(0, k).Draw(t, "maintat")
 			}
 			for j := 0; j < k; j++ {
 				var s Stmt
@@ -316,8 +326,43 @@ func runC05(c C05Case, o *Obs) error {
 					return err
 				}
 			}
+			maint := func(at int) error {
+				if st.Maint == "" || st.MaintAt != at {
+					return nil
+				}
+				var e error
+				if st.Maint == "refresh" {
+					e = conn.Refresh(tn)
+				} else {
+					e = conn.Vacuum(tn, baseTime-1000)
+				}
+				if e != nil {
+					o.Class("txn-" + st.Maint + "-inside-refused")
+				} else {
+					o.Class("txn-" + st.Maint + "-inside-ran")
+					// what the call itself wrote (a read-write re-open commits the merge of several
+					// current versions; a vacuum retires what an earlier commit could not) is not the
+					// transaction's doing: the comparisons below start from here. (Had the call
+					// published or dropped pending writes, the row checks above and below report it.)
+					preVersions = versionObjects(store, prefix)
+					logFrom = store.LogLen()
+					if preVer, e = conn.Version(tn); e != nil {
+						return e
+					}
+				}
+				if effective > 0 {
+					o.Class("txn-" + st.Maint + "-inside-after-effective-write")
+				}
+				return checkRows(fmt.Sprintf("%s after s3db_%s in the middle of the transaction (result: %v)", where, st.Maint, e))
+			}
+			if err := maint(0); err != nil {
+				return err
+			}
 			for j, s := range st.Stmts {
 				if !s.wellFormed() {
+					if err := maint(j + 1); err != nil {
+						return err
+					}
 					continue
 				}
 				if !st.Implicit {
@@ -333,6 +378,9 @@ func runC05(c C05Case, o *Obs) error {
 					return err
 				}
 				if skipped {
+					if err := maint(j + 1); err != nil {
+						return err
+					}
 					continue
 				}
 				if len(view) != nb {
@@ -355,6 +403,9 @@ func runC05(c C05Case, o *Obs) error {
 						return fmt.Errorf("%s: INSERT into the second table inside the transaction: %v", where, err)
 					}
 					o.Class("txn-spans-two-tables")
+				}
+				if err := maint(j + 1); err != nil {
+					return err
 				}
 			}
 			// (iii) nothing leaks before COMMIT
@@ -449,7 +500,7 @@ func runC05(c C05Case, o *Obs) error {
 					return fmt.Errorf("%s: s3db_version changed across a rolled-back transaction: %s -> %s", where, preVer, v)
 				}
 				if nv := versionObjects(store, prefix); strings.Join(nv, ",") != strings.Join(preVersions, ",") {
-					return fmt.Errorf("%s: a rolled-back transaction left version objects in the bucket: before %v, now %v", where, preVersions, nv)
+					return fmt.Errorf("%s: a rolled-back transaction left version objects in the bucket: before %v, now %v (writes since BEGIN: %v)", where, preVersions, nv, putsIn(store.LogSince(logFrom)))
 				}
 				if end == "rollback" {
 					if p := putsIn(store.LogSince(logFrom)); len(p) > 0 {
